@@ -20,6 +20,13 @@ type TypeSpec struct {
 	Rels   []jsonapi.Rel  // sorted by FromName, FromType == Name
 	Struct bool
 	GoType reflect.Type // struct type when Struct
+
+	// Soft types only: leave the Attrs / Rels map nil when it has no entry (a
+	// Type literal with only a name, as in the library's own tests).
+	NilMaps bool
+	// Soft types only: map key under which a relationship is stored when it is
+	// not its FromName (a hand-written Type literal; C15 quantifies over those).
+	RelKeys map[string]string
 }
 
 // SchemaSpec is a generated schema together with its description.
@@ -207,13 +214,27 @@ func StructTypeOf(ts *TypeSpec) reflect.Type {
 
 // SoftTypeOf builds the library Type value of a spec directly.
 func SoftTypeOf(ts *TypeSpec) jsonapi.Type {
-	typ := jsonapi.Type{Name: ts.Name, Attrs: map[string]jsonapi.Attr{}, Rels: map[string]jsonapi.Rel{}}
+	typ := jsonapi.Type{Name: ts.Name}
+
+	if !ts.NilMaps || len(ts.Attrs) > 0 {
+		typ.Attrs = map[string]jsonapi.Attr{}
+	}
+
+	if !ts.NilMaps || len(ts.Rels) > 0 {
+		typ.Rels = map[string]jsonapi.Rel{}
+	}
+
 	for _, a := range ts.Attrs {
 		typ.Attrs[a.Name] = a
 	}
 
 	for _, r := range ts.Rels {
-		typ.Rels[r.FromName] = r
+		key := r.FromName
+		if k, ok := ts.RelKeys[r.FromName]; ok {
+			key = k
+		}
+
+		typ.Rels[key] = r
 	}
 
 	return typ
@@ -306,6 +327,8 @@ func CoherentSchema(t *rapid.T, o SchemaOpts) *SchemaSpec {
 			specs[i].Struct = rapid.Bool().Draw(t, "struct")
 		}
 
+		specs[i].NilMaps = rapid.Bool().Draw(t, "nilmaps")
+
 		if o.AllKindsChance > 0 && rapid.IntRange(1, o.AllKindsChance).Draw(t, "allkinds") == 1 {
 			specs[i].Attrs = AllKindAttrs()
 			for _, a := range specs[i].Attrs {
@@ -356,8 +379,15 @@ func CoherentSchema(t *rapid.T, o SchemaOpts) *SchemaSpec {
 		case kind == 3 && !o.NoOwnInverse:
 			// A relationship that is its own inverse (same type, same name).
 			used[a][x] = true
+			// Check only compares names, so the two cardinalities may differ
+			// and the schema is still coherent in C16's sense.
+			fromOne := toOne
+			if rapid.IntRange(0, 2).Draw(t, "ownInverseUnequal") == 0 {
+				fromOne = !toOne
+			}
+
 			specs[a].Rels = append(specs[a].Rels, jsonapi.Rel{
-				FromType: specs[a].Name, FromName: x, ToOne: toOne, ToType: specs[a].Name, ToName: x, FromOne: toOne,
+				FromType: specs[a].Name, FromName: x, ToOne: toOne, ToType: specs[a].Name, ToName: x, FromOne: fromOne,
 			})
 		default:
 			y := rapid.SampledFrom(relPool).Draw(t, "y")
@@ -544,6 +574,29 @@ func IncoherentSchema(t *rapid.T) *SchemaSpec {
 
 	for i := range specs {
 		sort.Slice(specs[i].Rels, func(a, b int) bool { return specs[i].Rels[a].FromName < specs[i].Rels[b].FromName })
+
+		// Hand-written Type literals may store a relationship under a key
+		// that is not its name (the library's own TestSchemaCheck does).
+		if rapid.IntRange(0, 3).Draw(t, "oddkeys") == 0 {
+			names := []string{}
+			for _, r := range specs[i].Rels {
+				names = append(names, r.FromName)
+			}
+
+			keys := append([]string{}, names...)
+			if len(keys) > 1 && rapid.Bool().Draw(t, "swapkeys") {
+				keys = rapid.Permutation(keys).Draw(t, "keyperm")
+			} else {
+				for k := range keys {
+					keys[k] = "k-" + keys[k]
+				}
+			}
+
+			specs[i].RelKeys = map[string]string{}
+			for k, n := range names {
+				specs[i].RelKeys[n] = keys[k]
+			}
+		}
 	}
 
 	return BuildSchema(specs)
